@@ -85,6 +85,40 @@ std::string run_all(ref::Enc from, const Units &src, unsigned route_sel, long &c
 }
 
 // ---------------------------------------------------------------------------------------------
+// A string that already holds the (possibly malformed) bytes is validated / repaired FROM ITS OWN STORAGE: s.set(s.c_str()+k, n, mode),
+// s.set(s.view(k), mode), s = ST::string(s.c_str()..) assigned back.  Same reference as for a separate source; when the call throws the
+// string keeps its bytes.  Both storage classes occur (the input length decides).
+std::string in_place_checks(const Units &src, unsigned sel, long &calls) {
+    std::string bytes; for (uint32_t u : src) bytes += (char)u;
+    const size_t n = bytes.size();
+    const size_t k = n ? sel % n : 0;
+    for (int form = 0; form < 4; form++)
+        for (int m = 0; m < 3; m++) {
+            const size_t off = (form & 1) ? k : 0;
+            Units sub(src.begin() + (long)off, src.end());
+            ref::Expect e = ref::expect(ref::UTF8, ref::UTF8, (ref::Mode)m, sub, true);
+            conv::Outcome o;
+            ST::string s = ST::string::from_validated(bytes.data(), n);
+            try {
+                if (form < 2) s.set(s.c_str() + off, n - off, conv::st_mode((ref::Mode)m));
+                else s.set(std::string_view(s.c_str() + off, n - off), conv::st_mode((ref::Mode)m));
+                o.reported_size = s.size(); o.terminated = s.c_str()[s.size()] == 0;
+                for (size_t i = 0; i < s.size(); i++) o.out.push_back((unsigned char)s.c_str()[i]);
+            } catch (const ST::unicode_error &x) {
+                o.kind = 1; o.what = x.what();
+                if (s.size() != n || memcmp(s.c_str(), bytes.data(), n) != 0) return "s.set(from its own storage) threw ST::unicode_error and the string no longer holds its bytes";
+            } catch (...) { o.kind = 2; o.what = verif::describe_current_exception(); }
+            calls++;
+            std::string why = conv::judge(o, e);
+            if (why.empty() && m == ref::SUBSTITUTE && o.kind == 1) why = "substitute_invalid threw ST::unicode_error (" + o.what + ") for malformed input";
+            if (!why.empty())
+                return std::string(form < 2 ? "s.set(s.c_str()+" : "s.set(string_view(s.c_str()+") + verif::unum(off) + (form < 2 ? ", " : ", ") + verif::unum(n - off) + (form < 2 ? ", " : "), ") + conv::mode_name((ref::Mode)m) +
+                       ") on a string holding these " + verif::unum(n) + " bytes: " + why;
+        }
+    return std::string();
+}
+
+// ---------------------------------------------------------------------------------------------
 // Default-mode agreement: call with the validation argument omitted == call with the configured mode.
 struct Res { int kind = 0; std::string bytes; std::string what; };
 template <class F> Res outcome(F f) {
@@ -350,6 +384,7 @@ int verif_case(const uint8_t *data, size_t size, Case &c) {
     std::string sample, why;
 #ifdef VERIF_MAIN_VARIANT
     why = run_all(from, src, route_sel, calls, c.want_text ? &sample : nullptr);
+    if (why.empty() && from == ref::UTF8) why = in_place_checks(src, route_sel, calls);
 #else
     (void)route_sel;
 #endif
